@@ -6,6 +6,7 @@ import (
 	"io"
 	"io/fs"
 	"log/slog"
+	"math"
 	"os"
 	"path/filepath"
 
@@ -255,7 +256,8 @@ func (h *Handler) HandleReadFile(ctx *Context, limit uint32, offset uint64, wr s
 		return fmt.Errorf("seek failed: %w", err)
 	}
 
-	n := min(int64(limit), info.Size()-int64(offset))
+	// announced amount is int32 on the wire: bigger request is answered with as much as can be announced
+	n := min(int64(limit), info.Size()-int64(offset), math.MaxInt32)
 
 	log.DebugContext(ctx, "Read file", slog.Int64("read", n))
 
